@@ -152,8 +152,9 @@ def value_problem(o, var, max_str):
     if var.type != tn:
         return 'type %r reported for a %s' % (var.type, tn)
     val = var.value
-    if not isinstance(val, str):
-        return 'value is not text: %r' % (type(val).__name__,)
+    if type(val) is not str:
+        # (a str subclass handed through from the application would run application code wherever the text is used)
+        return 'value is not plain text: %r' % (type(val).__name__,)
     if max_str is not None and len(val) > max_str:
         return 'value of length %d exceeds the string limit %d' % (len(val), max_str)
     if type(o) is dict or type(o) in BUILTIN_SEQ:
